@@ -60,10 +60,42 @@ theorem sccStr_unsigned (bs : Bytes) : sccStr unsignedConv bs = Spec.serialCorre
   rw [sccChunk_empty]
   rfl
 
-theorem sccChunks_single (c : Bytes) : sccChunks [c] = Spec.serialCorrelation c := by
+/-! #### the range form (fix 5e43bd9): only the first visited block sets `sccfirst` -/
+
+theorem sccBlock_past (s : Scc) (ch : Bytes) : sccBlock s true ch = ch.foldl (sccStep unsignedConv) s := by
+  cases ch <;> rfl
+
+theorem sccFold_past (chunks : List Bytes) (s : Scc) :
+    (chunks.foldl (fun (st : Scc × Bool) ch => (sccBlock st.1 st.2 ch, true)) (s, true)).1 =
+      chunks.flatten.foldl (sccStep unsignedConv) s := by
+  induction chunks generalizing s with
+  | nil => rfl
+  | cons c cs ih =>
+    simp only [List.foldl_cons, List.flatten_cons, List.foldl_append, sccBlock_past]
+    exact ih _
+
+/-- On chunk lists as the walker produces them (an empty first chunk is the only chunk) the
+    range form is the definition on the concatenated bytes. -/
+theorem sccChunks_eq (chunks : List Bytes) (h : ∀ c cs, chunks = c :: cs → c = [] → cs = []) :
+    sccChunks chunks = Spec.serialCorrelation chunks.flatten := by
   unfold sccChunks
-  simp only [List.foldl_cons, List.foldl_nil]
-  exact sccStr_unsigned c
+  cases chunks with
+  | nil => exact sccStr_unsigned []
+  | cons c cs =>
+    cases c with
+    | nil =>
+      have := h [] cs rfl rfl
+      subst this
+      exact sccStr_unsigned []
+    | cons b rest =>
+      simp only [List.foldl_cons]
+      rw [sccFold_past]
+      have e : sccBlock {} false (b :: rest) = rest.foldl (sccStep unsignedConv)
+          (sccStep unsignedConv { first := unsignedConv b } b) := rfl
+      rw [e, ← List.foldl_append]
+      have e2 : ((b :: rest) :: cs).flatten = b :: (rest ++ cs.flatten) := by simp
+      rw [e2, ← sccStr_unsigned]
+      rfl
 
 /-! ### Monte-Carlo pi -/
 
@@ -83,10 +115,63 @@ theorem mcStr_unsigned (bs : Bytes) : mcStr unsignedConv bs = Spec.monteCarloPi 
   rw [mcChunk_unsigned]
   rfl
 
-theorem mcChunks_single (c : Bytes) : mcChunks [c] = Spec.monteCarloPi c := by
+/-! #### the range form (fix 5e43bd9): the grouping runs across blocks -/
+
+theorem mcChunk_short (conv : UInt8 → Int) (p : Bytes) (h : p.length < 6) : mcChunk conv p = (0, 0) := by
+  unfold mcChunk
+  split
+  · simp at h; omega
+  · rfl
+
+theorem mcChunk_six_append (conv : UInt8 → Int) (p bs : Bytes) (h : p.length = 6) :
+    mcChunk conv (p ++ bs) =
+      ((mcChunk conv bs).1 + (mcChunk conv p).1, (mcChunk conv bs).2 + (mcChunk conv p).2) := by
+  match p, h with
+  | [a, b, c, d, e, f], _ =>
+    simp only [List.cons_append, List.nil_append, mcChunk]
+    simp
+
+theorem mcFold (bs : Bytes) (s : Mc) (h : s.pend.length < 6) :
+    (bs.foldl mcStep s).cnt = s.cnt + (mcChunk unsignedConv (s.pend ++ bs)).1 ∧
+    (bs.foldl mcStep s).inm = s.inm + (mcChunk unsignedConv (s.pend ++ bs)).2 := by
+  induction bs generalizing s with
+  | nil => simp [mcChunk_short unsignedConv s.pend h]
+  | cons b bs ih =>
+    simp only [List.foldl_cons]
+    have e : s.pend ++ b :: bs = (s.pend ++ [b]) ++ bs := by simp
+    by_cases h6 : (s.pend ++ [b]).length = 6
+    · have hs : mcStep s b = ⟨[], s.cnt + (mcChunk unsignedConv (s.pend ++ [b])).1,
+          s.inm + (mcChunk unsignedConv (s.pend ++ [b])).2⟩ := by
+        unfold mcStep; rw [if_pos h6]
+      rw [hs]
+      have := ih ⟨[], s.cnt + (mcChunk unsignedConv (s.pend ++ [b])).1,
+          s.inm + (mcChunk unsignedConv (s.pend ++ [b])).2⟩ (by simp)
+      simp only [List.nil_append] at this
+      rw [this.1, this.2, e, mcChunk_six_append unsignedConv _ bs h6]
+      constructor <;> simp only <;> omega
+    · have hs : mcStep s b = ⟨s.pend ++ [b], s.cnt, s.inm⟩ := by
+        unfold mcStep; rw [if_neg h6]
+      rw [hs]
+      have hl : (s.pend ++ [b]).length < 6 := by simp at h6 ⊢; omega
+      have := ih ⟨s.pend ++ [b], s.cnt, s.inm⟩ hl
+      simp only at this
+      rw [this.1, this.2, e]
+      exact ⟨rfl, rfl⟩
+
+theorem foldl_chunks'' {α : Type} (f : α → UInt8 → α) (chunks : List Bytes) (a : α) :
+    chunks.foldl (fun c ch => ch.foldl f c) a = chunks.flatten.foldl f a := by
+  induction chunks generalizing a with
+  | nil => rfl
+  | cons ch chunks ih => simp only [List.foldl_cons, List.flatten_cons, List.foldl_append, ih]
+
+theorem mcChunks_eq (chunks : List Bytes) : mcChunks chunks = Spec.monteCarloPi chunks.flatten := by
   unfold mcChunks
-  simp only [List.foldl_cons, List.foldl_nil, Nat.zero_add]
-  exact mcStr_unsigned c
+  simp only
+  rw [foldl_chunks'']
+  have h := mcFold chunks.flatten {} (by simp)
+  simp only [List.nil_append, Nat.zero_add] at h
+  rw [h.1, h.2, ← mcStr_unsigned]
+  rfl
 
 /-! ### string statistics -/
 
